@@ -250,11 +250,14 @@ def get_plan(pid):
         return MarkerPlan(pid)
     if pid == "C07":
         jobs = [(t, "marker_function", {"name": t}) for t in ("dep_logic.markers.multi:MultiMarker.__str__", "dep_logic.markers.union:MarkerUnion.__str__")]
+        jobs.append(("C07.atoms", "atom_roundtrip", {}))
         return JobsPlan("C07", jobs, rtc=["marker_algebra"], level="other",
                         technique="parenthesisation contract of MultiMarker.__str__ / MarkerUnion.__str__ over a document algebra (atom / and-join / or-join / parenthesised / tokens): every operand of a join "
-                                  "parses at that precedence level and means the corresponding child; loop/comprehension invariants; z3. Round trip through the real parsers as bounded part",
+                                  "parses at that precedence level and means the corresponding child; loop/comprehension invariants; atoms: the real MarkerExpression.__str__ followed by packaging's reading of "
+                                  "`V op \"L\"` / `\"L\" op V` and the real _build_markers gives the same atom back (10 operators x both operand orders, symbolic names and literals); z3. "
+                                  "Round trip through the real parsers as bounded part",
                         trusted_base=["A-ENGINE", "A-PKG-PARSE: packaging parses 'and' tighter than 'or', parentheses group", "contract of str() on the children (kind by class, meaning = evaluation), assumed recursively",
-                                      "normal form of the rendered marker (no empty/universal child) - C15", "atom and atom-group renderings are covered by the bounded part"],
+                                      "normal form of the rendered marker (no empty/universal child) - C15", "atom-group renderings (EqualityMarkerUnion / InequalityMultiMarker) and quoting of literals are covered by the bounded part"],
                         explanation="proof part: the structural reason why re-parsing a rendered compound gives the same meaning (no unparenthesised or-join inside an and-join, no <empty>/'' token inside); "
                                     "bounded part: str() of every result of the marker sweep re-parsed by parse_marker and packaging.Marker and re-evaluated on the environment grid")
     if pid in ("C06", "C04"):
